@@ -80,10 +80,12 @@ type c04Gen struct {
 	forced     map[string]string                        // fk field -> value imposed on the next values() call
 	reuseFirst bool                                     // the second transaction of the history is a re-use life cycle (belief still exact)
 	nReuse     int                                      // transactions produced by reuseTxs
+	childFk    bool                                     // some fk edge starts or ends at a child store: the belief tracks the store an entity lives in (store_c04_child.go)
 }
 
 func newC04Gen(r *rng, w *wiring, ids []string) *c04Gen {
 	g := &c04Gen{r: r, w: w, ids: ids, vals: []string{"v1", "v2", "v3", ""}, ents: map[string]map[string]map[string]*string{}, unique: map[string]bool{}}
+	g.childFk = c04HasChildFk(w)
 	for _, s := range w.Stores {
 		if s.Parent == "" {
 			g.ents[s.Name] = map[string]map[string]*string{}
@@ -141,11 +143,17 @@ func (g *c04Gen) referrers(root, id string) (restrict []string, cascade [][2]str
 		if g.root(d.Target) != root {
 			continue
 		}
+		if d.Target != root && !g.isAliveIn(d.Target, id) {
+			continue // the edge ends at a child store the entity has no data in: nothing can reference it through this edge
+		}
 		rr := g.root(d.Store)
 		for _, x := range g.ids {
 			e, ok := g.ents[rr][x]
 			if !ok || e[d.Field] == nil || *e[d.Field] != id {
 				continue
+			}
+			if d.Store != rr && !g.isAliveIn(d.Store, x) {
+				continue // the fk field lives in a child store the entity has no data in
 			}
 			if d.Kind == "fkindexcascade" || (d.Kind == "fkcons" && d.Casc == "D") {
 				cascade = append(cascade, [2]string{rr, x})
@@ -208,9 +216,13 @@ func (g *c04Gen) values(op *hOp) (valid bool) {
 		if g.fkDecl(owner, f.Name) == nil && s.Parent != "" {
 			owner = s.Parent
 		}
-		if d := g.fkDecl(owner, f.Name); d != nil {
+		d, relevant := g.fkDecl(owner, f.Name), true
+		if g.childFk {
+			d, relevant = g.c04cDecl(op, f.Name) // also the fk fields of child stores, seen from the parent store
+		}
+		if d != nil {
 			troot := g.root(d.Target)
-			alive := g.aliveIds(troot)
+			alive := g.aliveIn(d.Target)
 			k := g.r.intn(100)
 			switch {
 			case k < 4:
@@ -234,13 +246,25 @@ func (g *c04Gen) values(op *hOp) (valid bool) {
 			v := op.F[f.Name]
 			nullable := d.Nullable && d.Kind != "fkindexcascade"
 			switch {
+			case !relevant:
+				// a field of a child store the operation does not reach
 			case v == nil || *v == "":
 				if !nullable {
 					valid = false
 				}
 			case *v == op.Id && troot == root:
+				// a self reference; through an edge that ends at a child store the entity itself must live there
+				if d.Target != troot {
+					in := op.Store
+					if op.Kind == "UP" {
+						in = g.viaOf(root, op.Id)
+					}
+					if in != d.Target {
+						valid = false
+					}
+				}
 			default:
-				if _, ok := g.ents[troot][*v]; !ok {
+				if !g.isAliveIn(d.Target, *v) {
 					valid = false
 				}
 			}
@@ -275,7 +299,7 @@ func (g *c04Gen) creatable(store string) bool {
 	for _, f := range g.fieldsFor(store) {
 		for _, owner := range []string{store, g.root(store)} {
 			if d := g.fkDecl(owner, f.Name); d != nil && !(d.Nullable && d.Kind != "fkindexcascade") {
-				if len(g.aliveIds(g.root(d.Target))) == 0 {
+				if len(g.aliveIn(d.Target)) == 0 {
 					return false
 				}
 			}
@@ -322,7 +346,11 @@ func (g *c04Gen) genOp() hOp {
 		}
 		valid := g.values(&op)
 		if _, exists := g.ents[root][op.Id]; valid && !exists && op.Id != "" {
-			g.ents[root][op.Id] = op.F
+			if g.childFk {
+				g.c04cBelieveCreate(&op)
+			} else {
+				g.ents[root][op.Id] = op.F
+			}
 		}
 		return op
 	case k < 64:
@@ -341,9 +369,23 @@ func (g *c04Gen) genOp() hOp {
 					op.Checker = append(op.Checker, sn)
 				}
 			}
+			if g.childFk && st.Parent == "" {
+				// a patch entered through the parent store may name fields of the child store it is routed to
+				for _, c := range g.w.Stores {
+					if c.Parent == st.Name && g.viaOf(root, op.Id) == c.Name {
+						for _, f := range c.Fields {
+							if g.r.chance(50) {
+								op.Checker = append(op.Checker, f.Name)
+							}
+						}
+					}
+				}
+			}
 			op.Checker = c04ModelChecker(g.w, st.Name, op.Checker) // fields the strategy writes whatever the checker says (store_c04_api.go)
 		}
-		if e, ok := g.ents[root][op.Id]; ok && valid {
+		if g.childFk {
+			g.c04cBelieveUpdate(&op, valid)
+		} else if e, ok := g.ents[root][op.Id]; ok && valid {
 			for f, v := range op.F {
 				if !op.HasChk || containsStr(op.Checker, f) {
 					e[f] = v
@@ -669,6 +711,15 @@ func runStoreIso(o *opts) error {
 			}
 		}
 		lines = append(lines, genC04W(o.seed+7919, n*2/5, c04ApiWirings, stats)...)
+		// fk edges that start or end at a child store (store_c04_child.go)
+		if o.get("sweep", "1") == "1" {
+			if o.thorough() {
+				lines = append(lines, c04ExhaustScenarios(c04ChildScenarios(), 3, "exhaustive_child", stats)...)
+			} else {
+				lines = append(lines, c04ExhaustScenarios(c04ChildScenarios(), 2, "exhaustive_child", stats)...)
+			}
+		}
+		lines = append(lines, genC04W(o.seed+104729, n*2/5, c04ChildWirings, stats)...)
 	}
 	cases := newLineWriter(o.out, "cases.txt")
 	for _, l := range lines {
